@@ -42,6 +42,20 @@ Theorem C10_model_is_textbook_maxt : forall ts sims alts adj raw,
 Proof. exact wy_maxt_model_eq_spec. Qed.
 Print Assumptions C10_model_is_textbook_maxt.
 
+(* ... so the FWER theorem below applies to what the code returns: the smallest adjusted p-value of the model's
+   min-P output is the value of the most significant hypothesis c0, and it equals the rank of the observed row's
+   minimum permutation p-value among the row minima of all reps+1 rows -- the quantity C10_minp_fwer_exact bounds *)
+Theorem C10_smallest_adjusted_pvalue_is_rank_of_row_minimum : forall ts sims alts adj raw,
+  westfall_young_table ts sims MinP alts = Ok (adj, raw) -> (0 < length ts)%nat ->
+  let Lasc := rev (minp_order ts sims alts) in
+  let rows := all_rows ts sims in
+  let m := fun r => qminl (map (P ts sims alts r) Lasc) in
+  exists c0, hd_error Lasc = Some c0 /\
+    nth c0 adj 0 == qn (count_if (fun x => Qle_bool x (m ts)) (map m rows)) / qn (length rows) /\
+    forall c, (c < length ts)%nat -> nth c0 adj 0 <= nth c adj 0.
+Proof. exact wy_minp_smallest_adjusted. Qed.
+Print Assumptions C10_smallest_adjusted_pvalue_is_rank_of_row_minimum.
+
 (* step-down min-P: the value attached to the most significant hypothesis is the rank of the row's smallest
    permutation p-value among all rows; later values take the minimum over the remaining hypotheses only and
    are made monotone (running maximum) *)
